@@ -915,6 +915,94 @@ def param_designs(run, d, seed, n, shard):
                           dict(case, detail=out.detail, text=(out.text or '')[:5000]), what='param-%d: %s' % (i, out.detail))
 
 
+DERIVED_SRC = '''import py4hw
+
+
+class GrayBuf_{tag}(py4hw.Buf):
+    def propagate(self):
+        self.r.put(self.a.get() ^ (self.a.get() >> 1))
+
+
+class PlusNot_{tag}(py4hw.Not):
+    def propagate(self):
+        self.r.put((self.a.get() + 3) & 255)
+
+
+class OrAnd_{tag}(py4hw.And2):
+    def propagate(self):
+        self.r.put(self.a.get() | self.b.get())
+
+
+class SubAdd_{tag}(py4hw.Add):
+    pass
+
+
+class AccReg_{tag}(py4hw.Reg):
+    def clock(self):
+        self.q.prepare((self.q.get() + self.d.get()) & 255)
+
+
+class PlainReg_{tag}(py4hw.Reg):
+    pass
+'''
+
+
+def derived_designs(run, d, seed, shard):
+    """User blocks derived from library primitives. One that overrides propagate/clock is a behavioural block like any other: its own
+    method is what must be translated (or the block refused), never the text of the primitive it derives from."""
+    import py4hw
+    from . import cosim
+    tag = 'd%d' % os.getpid()
+    name = 'DMods_%s' % tag
+    path = os.path.join(d, name + '.py')
+    with open(path, 'w') as f:
+        f.write(DERIVED_SRC.replace('{tag}', tag))
+    spec = importlib.util.spec_from_file_location(name, path)
+    mod = importlib.util.module_from_spec(spec)
+    sys.modules[name] = mod
+    try:
+        spec.loader.exec_module(mod)
+    finally:
+        sys.modules.pop(name, None)
+    kinds = [('GrayBuf', 1, False), ('PlusNot', 1, False), ('OrAnd', 2, False), ('SubAdd', 2, False), ('AccReg', 1, True), ('PlainReg', 1, True)]
+    jobs = [(k, nested) for k in kinds for nested in (False, True)]
+    for (cname, nin, seq), nested in shard_slice(jobs, shard):
+        C = getattr(mod, '%s_%s' % (cname, tag))
+        rnd = rng(seed, 'c02-derived', cname, nested)
+        hw = py4hw.HWSystem()
+        D = cosim.Dut.cls('Dut')
+        try:
+            with muted():
+                dut = D(hw, 'dut')
+                parent = dut
+                if nested:
+                    parent = cosim.Dut.cls('Mid')(dut, 'mid')
+                ins = [hw.wire('x%d' % k, 8) for k in range(nin)]
+                r = hw.wire('y', 8)
+                C(parent, 'blk', *ins, r)
+                if nested:
+                    cosim.wrap_ports(parent, ins, [r])
+                cosim.wrap_ports(dut, ins, [r])
+            des = cosim.Design(hw, dut, ins, [r], 'derived-%s%s' % (cname, '-nested' if nested else ''))
+            vecs = [{w.name: rnd.getrandbits(8) for w in ins} for _ in range(40)]
+            out = cosim.cosim(des, vecs, seq)
+        except Exception:
+            run.count('derived_build_failed')
+            continue
+        run.ev()
+        run.count('derived_designs')
+        run.count('derived_status_' + out.status)
+        case = dict(workload='derived_primitive', base=cname, nested=nested)
+        if out.status == 'compared':
+            run.count('programs_compared')
+            run.nt(stable_hash(['derived', cname, nested]))
+        if out.mismatch is not None:
+            m = out.mismatch
+            run.violation('behaviour_differs', dict(program_class='derived_primitive', kind='clock' if seq else 'propagate', what='output'),
+                          dict(case, mismatch=m, text=(out.text or '')[:4000]),
+                          what='%s: output %s cycle %s: python %s, verilog %s' % (des.label, m['output'], m['cycle'], m['simulator'], m['verilog']))
+
+
 def run_check(run, tier, seed, shard):
     import py4hw
     quick = tier == 'quick'
@@ -948,6 +1036,8 @@ def run_check(run, tier, seed, shard):
                 judge(run, label, 'corpus', 'clock' if seq else 'propagate', res, dict(workload='corpus', label=label, rep=rep), stable_hash([label, rep]))
                 if res.status != 'compared':
                     break
+        # (e) user blocks derived from library primitives
+        derived_designs(run, d, seed, shard)
         # (d) parameters forwarded through shared structural modules
         param_designs(run, d, seed, 60 if quick else 3000, shard)
         # (b)+(c) generated
